@@ -157,11 +157,38 @@ def run_window(deb, o, h, f, method="apply_on_window"):
         return np.asarray(getattr(deb, method)(o.copy(), h.copy(), f.copy()), dtype=float)
 
 
-def make_case(kind, params, seed):
-    """(debiaser, obs, H, F, slack_rel, runner) for one replayable case; everything derives from `seed`"""
+def build_debiaser(kind, params, **extra):
+    """(real debiaser, relative float slack) for a configuration; `extra` overrides constructor arguments
+    (running-window settings of the sequence cases)"""
     from ibicus.debias import CDFt, LinearScaling, QuantileMapping
     import scipy.stats
 
+    slack = 1e-12
+    with warnings.catch_warnings():
+        warnings.simplefilter("ignore")
+        if kind == "LS":
+            deb, slack = LinearScaling(delta_type=params["delta"], **extra), 0.0
+        elif kind == "QMparam":
+            dist = {"norm": scipy.stats.norm, "gamma": scipy.stats.gamma}[params["dist"]]
+            deb = QuantileMapping(distribution=dist, mapping_type="parametric", detrending=params["detrending"], **extra)
+        elif kind == "QMpr":
+            deb = QuantileMapping.for_precipitation(model_type=params["model"], detrending=params["detrending"],
+                                                    censoring_threshold=censoring_threshold(params), **extra)
+        elif kind == "QMnonparam":
+            deb = QuantileMapping(distribution=None, mapping_type="nonparametric", detrending=params["detrending"], **extra)
+        elif kind == "CDFt":
+            kw = dict(running_window_mode=False, running_window_mode_over_years_of_cm_future=False)
+            kw.update(extra)
+            deb = CDFt(SSR=params["ssr"], delta_shift=params["shift"], ecdf_method=params["em"], iecdf_method=params["im"], **kw)
+            if params["im"] in DISCRETE_IECDF and params["shift"] != "multiplicative":
+                slack = 0.0
+        else:
+            raise ValueError(kind)
+    return deb, slack
+
+
+def make_case(kind, params, seed):
+    """(debiaser, obs, H, F, slack_rel, params) for one replayable case; everything derives from `seed`"""
     nprs = np.random.RandomState(seed)
     nO, nH, nF = (int(nprs.randint(12, 90)) for _ in range(3))
     ties = bool(nprs.random() < 0.4)
@@ -198,27 +225,15 @@ def make_case(kind, params, seed):
             f[k[3:]] = 0.0
     if nprs.random() < 0.6:  # far tails: saturation of fitted cdfs / extrapolation far outside the calibration range
         f = far_tail(nprs, f, h, positive=(data != "tas"))
-    slack = 1e-12
-    with warnings.catch_warnings():
-        warnings.simplefilter("ignore")
-        if kind == "LS":
-            deb, slack = LinearScaling(delta_type=params["delta"]), 0.0
-        elif kind == "QMparam":
-            dist = {"norm": scipy.stats.norm, "gamma": scipy.stats.gamma}[params["dist"]]
-            deb = QuantileMapping(distribution=dist, mapping_type="parametric", detrending=params["detrending"])
-        elif kind == "QMpr":
-            deb = QuantileMapping.for_precipitation(model_type=params["model"], detrending=params["detrending"],
-                                                    censoring_threshold=censoring_threshold(params))
-        elif kind == "QMnonparam":
-            deb = QuantileMapping(distribution=None, mapping_type="nonparametric", detrending=params["detrending"])
-        elif kind == "CDFt":
-            deb = CDFt(SSR=params["ssr"], delta_shift=params["shift"], ecdf_method=params["em"], iecdf_method=params["im"],
-                       running_window_mode=False, running_window_mode_over_years_of_cm_future=False)
-            if params["im"] in DISCRETE_IECDF and params["shift"] != "multiplicative":
-                slack = 0.0
-        else:
-            raise ValueError(kind)
+    deb, slack = build_debiaser(kind, params)
     return deb, o, h, f, slack, params
+
+
+def describe(name, prob):
+    if "malformed" in prob:
+        return f"{name}: well-formed window, but the real code did not return a finite result of the right shape: {prob['malformed']}"
+    where = f" [{prob['where']}]" if prob.get("where") else ""
+    return f"{name}{where}: x[{prob['i']}]={prob['x_i']!r} < x[{prob['j']}]={prob['x_j']!r} but out {prob['out_i']!r} > {prob['out_j']!r}"
 
 
 def censoring_threshold(params):
@@ -233,15 +248,17 @@ def run_case(kind, params, seed):
     deb, o, h, f, slack, params = make_case(kind, params, seed)
     np.random.seed(seed % (2**31 - 1))
     method = "_apply_debiasing_steps" if kind == "CDFt" else "apply_on_window"
+    base = {"n": int(f.size), "ties": int(f.size - np.unique(f).size), "zeros": int((f == 0).sum()),
+            "outside": int(((f < h.min()) | (f > h.max())).sum())}
     try:
         out = run_window(deb, o, h, f, method)
-    except Exception as ex:  # noqa: BLE001  (not a monotonicity statement; counted)
-        return None, {"skipped": type(ex).__name__}
+    except Exception as ex:  # noqa: BLE001  well-formed input: the window function must return
+        return ({"malformed": f"{type(ex).__name__}: {str(ex)[:200]}", "obs": o.tolist(), "cm_hist": h.tolist(), "cm_future": f.tolist()}, base)
     if out.shape != f.shape or not np.all(np.isfinite(out)):
-        return None, {"skipped": "nonfinite"}
+        return ({"malformed": f"result shape {out.shape} for {f.shape} / non-finite values", "obs": o.tolist(), "cm_hist": h.tolist(),
+                 "cm_future": f.tolist()}, base)
     sl = slack * scale_of(o, h, f, out)
-    info = {"n": int(f.size), "ties": int(f.size - np.unique(f).size), "zeros": int((f == 0).sum()),
-            "outside": int(((f < h.min()) | (f > h.max())).sum())}
+    info = base
     if kind == "QMpr" and params["model"] == "censored":
         # what the theorem states for every draw: pairs with x_j >= thr (sub-threshold inputs collapsed to one tie class) …
         thr = censoring_threshold(params)
@@ -392,11 +409,13 @@ def run_isimip_case(var, overrides, stage, seed, dry=None, mode="normal"):
                     oF = deb.step5(o4.copy(), h4.copy(), f4.copy())
                     x = f4.copy()
                     out = deb.step6(o4.copy(), oF, h4.copy(), f4.copy())
-        except Exception as ex:  # noqa: BLE001
-            return None, {"skipped": type(ex).__name__}
+        except Exception as ex:  # noqa: BLE001  well-formed window: the step must return
+            return ({"malformed": f"{type(ex).__name__}: {str(ex)[:200]}", "obs": o.tolist(), "cm_hist": h.tolist(), "cm_future": f.tolist()},
+                    {"n": int(f.size), "ties": 0, "at_lower": 0, "at_upper": 0})
     out = np.asarray(out, dtype=float)
     if out.shape != x.shape or not np.all(np.isfinite(out)):
-        return None, {"skipped": "nonfinite"}
+        return ({"malformed": f"result shape {out.shape} for {x.shape} / non-finite values", "obs": o.tolist(), "cm_hist": h.tolist(),
+                 "cm_future": f.tolist()}, {"n": int(f.size), "ties": 0, "at_lower": 0, "at_upper": 0})
     parametric = not deb.nonparametric_qm
     slack = 0.0 if stage == "step4" else 1e-12 * scale_of(o, h, f, out) if (parametric or deb.iecdf_method not in DISCRETE_IECDF) else 0.0
     v = order_violation(x, out, slack)
@@ -407,6 +426,188 @@ def run_isimip_case(var, overrides, stage, seed, dry=None, mode="normal"):
     i, j = v
     return ({"i": i, "j": j, "x_i": float(x[i]), "x_j": float(x[j]), "out_i": float(out[i]), "out_j": float(out[j]),
              "obs": o.tolist(), "cm_hist": h.tolist(), "cm_future": f.tolist(), "stage_input": x.tolist(), "slack_abs": slack}, info)
+
+
+# ------------------------------------------------------------------ sequences on ONE debiaser object
+def seq_location(nprs, data, n, mag, smallest):
+    """(obs, cm_hist, cm_future) of one location / season; `mag` scales the whole location, `smallest` is the smallest positive
+    precipitation amount (so that two locations differ in the smallest positive value of the data)"""
+    if data == "pr":
+        def pr(dry, scale):
+            x = (smallest + nprs.gamma(0.7, scale, n)) * mag
+            x[nprs.random(n) < dry] = 0.0
+            return x
+        return pr(0.30, 3.5), pr(0.40, 3.0), pr(0.40, 3.0)
+    if data == "pos":
+        return tuple((np.abs(nprs.normal(6, 2, n)) + 0.25) * mag for _ in range(3))
+    return tuple(nprs.normal(mu, sd, n) * mag for mu, sd in ((283, 3), (285, 4), (287, 5)))
+
+
+def group_violation(x, out, groups, slack):
+    for label, idx in groups:
+        idx = np.asarray(idx, dtype=int)
+        if idx.size < 2:
+            continue
+        v = order_violation(x[idx], out[idx], slack)
+        if v is not None:
+            return label, int(idx[v[0]]), int(idx[v[1]])
+    return None
+
+
+def run_sequence_case(kind, params, mode, seed):
+    """One debiaser object used for several windows one after the other; within every window the relation must hold
+    whatever the object was applied to before.  mode:
+      "calls"   two apply_on_window calls (locations of different magnitude, either order); the second is checked
+      "grid"    apply() on a 1 x 2 grid (running-window modes off: each cell is one window)
+      "windows" apply_location with day-of-year running windows and a seasonal change of magnitude; groups = the steps adjusted
+                by one window
+      "years"   CDFt only: year windows of cm_future with a change of magnitude between the years"""
+    import datetime
+
+    from harness import probes
+
+    _quiet()
+    nprs = np.random.RandomState(seed)
+    data = params.get("data", "tas")
+    data = "pr" if data in ("pr", "prflux") else data
+    coarse_first = bool(nprs.random() < 0.7)
+    mags = (1.0, float(nprs.choice([1.0, 1e-2]))) if data == "pr" else (1.0, float(nprs.choice([1e-2, 10.0])))
+    smalls = (0.5, 1e-3)
+    order = (0, 1) if coarse_first else (1, 0)
+    info = {"mode": mode, "coarse_first": coarse_first}
+    np.random.seed(seed % (2**31 - 1))
+    prob = None
+    try:
+        with warnings.catch_warnings(), np.errstate(all="ignore"):
+            warnings.simplefilter("ignore")
+            if mode == "calls":
+                n = int(nprs.randint(120, 400))
+                locs = [seq_location(nprs, data, n, mags[k], smalls[k]) for k in order]
+                deb, slack = build_debiaser(kind, params)
+                for o, h, f in locs:
+                    out = np.asarray(deb.apply_on_window(o.copy(), h.copy(), f.copy()), dtype=float)
+                x, groups = locs[1][2], [("second call", np.arange(n))]
+                series = locs[1]
+            elif mode == "grid":
+                n = int(nprs.randint(120, 300))
+                locs = [seq_location(nprs, data, n, mags[k], smalls[k]) for k in order]
+                extra = {} if kind == "CDFt" else {"running_window_mode": False}
+                deb, slack = build_debiaser(kind, params, **extra)
+                O, Hh, Ff = (np.stack([locs[0][k], locs[1][k]], axis=1)[:, None, :] for k in range(3))
+                res3 = np.asarray(deb.apply(O.copy(), Hh.copy(), Ff.copy(), progressbar=False), dtype=float)
+                x = np.concatenate([locs[0][2], locs[1][2]])
+                out = np.concatenate([res3[:, 0, 0], res3[:, 0, 1]])
+                groups = [("cell (0,0)", np.arange(n)), ("cell (0,1)", np.arange(n, 2 * n))]
+                series = tuple(np.concatenate([locs[0][k], locs[1][k]]) for k in range(3))
+            else:
+                years_n = 2 if mode == "windows" else 6
+                dates = probes.dates_from(datetime.date(2001, 1, 1), 365 * years_n)
+                n = dates.size
+                from ibicus.utils import day_of_year, year
+                doy, yrs = day_of_year(dates), year(dates)
+                a, b = (seq_location(nprs, data, n, mags[k], smalls[k]) for k in order)
+                if mode == "windows":  # the season decides the magnitude
+                    first = doy <= 183
+                    extra = dict(running_window_mode=True, running_window_length=61, running_window_step_length=61)
+                else:  # the year decides the magnitude: early years coarse, late years fine
+                    first = yrs <= 2003
+                    extra = dict(running_window_mode=False, running_window_mode_over_years_of_cm_future=True,
+                                 running_window_over_years_of_cm_future_length=3, running_window_over_years_of_cm_future_step_length=1)
+                series = tuple(np.where(first, a[k], b[k]) for k in range(3))
+                deb, slack = build_debiaser(kind, params, **extra)
+                out = np.asarray(deb.apply_location(series[0].copy(), series[1].copy(), series[2].copy(), dates, dates, dates), dtype=float)
+                x = series[2]
+                if mode == "windows":
+                    groups = [(f"window centred on day {int(c)}", idx) for c, idx in deb.running_window.use(doy)]
+                else:
+                    groups = [(f"years {list(map(int, yd))}", np.where(np.isin(yrs, yd))[0])
+                              for yd, _ in deb.running_window_over_years_of_cm_future.use(yrs)]
+    except Exception as ex:  # noqa: BLE001
+        return {"malformed": f"{type(ex).__name__}: {str(ex)[:200]}"}, info
+    if out.shape != x.shape or not np.all(np.isfinite(out)):
+        return {"malformed": f"result shape {out.shape} for {x.shape} / non-finite values"}, info
+    info["n"] = int(x.size)
+    info["groups"] = len(groups)
+    v = group_violation(x, out, groups, slack * scale_of(x, out))
+    if v is None:
+        return None, info
+    label, i, j = v
+    prob = {"where": label, "i": i, "j": j, "x_i": float(x[i]), "x_j": float(x[j]), "out_i": float(out[i]), "out_j": float(out[j]),
+            "obs": series[0].tolist(), "cm_hist": series[1].tolist(), "cm_future": series[2].tolist()}
+    return prob, info
+
+
+def run_isimip_sequence_case(var, overrides, mode, seed):
+    """ISIMIP: two `_apply_on_window` calls on one object ("calls"), or `apply` on a 1 x 2 grid in month mode ("grid": every
+    calendar month of every cell is one window); the two locations differ in dry fraction / magnitude"""
+    import datetime
+
+    from harness import probes
+
+    _quiet()
+    nprs = np.random.RandomState(seed)
+    info = {"mode": mode}
+    np.random.seed(seed % (2**31 - 1))
+    n = int(nprs.randint(60, 140)) if mode == "calls" else 365
+    mags = (1.0, float(nprs.choice([1.0, 0.2]))) if var == "pr" else (1.0, 1.0)
+    locs = []
+    for k in range(2):
+        dry = float(nprs.uniform(0.05, 0.9))
+        locs.append(tuple(isimip_data(var, nprs, n, role, dry) * mags[k] for role in ("obs", "hist", "fut")))
+    try:
+        with warnings.catch_warnings(), np.errstate(all="ignore"):
+            warnings.simplefilter("ignore")
+            if mode == "calls":
+                deb = make_isimip(var, dict(overrides))
+                yrs = np.repeat(np.arange(2000, 2000 + (n + 9) // 10), 10)[:n]
+                for o, h, f in locs:
+                    out = np.asarray(deb._apply_on_window(o.copy(), h.copy(), f.copy(), yrs, yrs, yrs), dtype=float)
+                x, groups, series = locs[1][2], [("second call", np.arange(n))], locs[1]
+            else:
+                deb = make_isimip(var, {**overrides, "running_window_mode": False})
+                dates = probes.dates_from(datetime.date(2001, 1, 1), n)
+                from ibicus.utils import month
+                mon = month(dates)
+                O, Hh, Ff = (np.stack([locs[0][k], locs[1][k]], axis=1)[:, None, :] for k in range(3))
+                res3 = np.asarray(deb.apply(O.copy(), Hh.copy(), Ff.copy(), time_obs=dates, time_cm_hist=dates, time_cm_future=dates,
+                                            progressbar=False), dtype=float)
+                x = np.concatenate([locs[0][2], locs[1][2]])
+                out = np.concatenate([res3[:, 0, 0], res3[:, 0, 1]])
+                groups = [(f"cell (0,{c}) month {m}", c * n + np.where(mon == m)[0]) for c in (0, 1) for m in range(1, 13)]
+                series = tuple(np.concatenate([locs[0][k], locs[1][k]]) for k in range(3))
+    except Exception as ex:  # noqa: BLE001
+        return {"malformed": f"{type(ex).__name__}: {str(ex)[:200]}"}, info
+    if out.shape != x.shape or not np.all(np.isfinite(out)):
+        return {"malformed": f"result shape {out.shape} for {x.shape} / non-finite values"}, info
+    info["n"], info["groups"] = int(x.size), len(groups)
+    v = group_violation(x, out, groups, 1e-12 * scale_of(x, out))
+    if v is None:
+        return None, info
+    label, i, j = v
+    return ({"where": label, "i": i, "j": j, "x_i": float(x[i]), "x_j": float(x[j]), "out_i": float(out[i]), "out_j": float(out[j]),
+             "obs": series[0].tolist(), "cm_hist": series[1].tolist(), "cm_future": series[2].tolist()}, info)
+
+
+def sequence_cases(rng, tier, mult):
+    cases = []
+    rep = (1 if tier == "quick" else 8) * mult
+    for _ in range(rep):
+        ssr_pairs = [("linear_interpolation", "linear"), ("step_function", "inverted_cdf"), (rng.choice(ECDF_METHODS), rng.choice(IECDF_METHODS))]
+        for em, im in ssr_pairs:
+            p = dict(em=em, im=im, shift=rng.choice(["additive", "multiplicative", "no_shift"]), ssr=True, data="pr")
+            for mode in ("calls", "grid", "windows", "years"):
+                cases.append(("CDFt", p, mode))
+        cases.append(("CDFt", dict(em="linear_interpolation", im="linear", shift="additive", ssr=False, data="tas"), rng.choice(["calls", "grid", "windows", "years"])))
+        for kind, p in (("LS", dict(delta="multiplicative", data="pr")),
+                        ("QMparam", dict(dist="norm", detrending="additive", data="tas")),
+                        ("QMnonparam", dict(detrending="no_detrending", data="pr")),
+                        ("QMpr", dict(model="hurdle", detrending="multiplicative", data="pr")),
+                        ("QMpr", dict(model="ignore_zeros", detrending="no_detrending", data="pr"))):
+            for mode in ("calls", rng.choice(["grid", "windows"])):
+                cases.append((kind, p, mode))
+        for var, ov in (("pr", {}), ("hurs", {"nonparametric_qm": False}), ("tas", {"detrending": False}), ("tasskew", {})):
+            cases.append(("ISIMIP", {"var": var, "overrides": ov}, rng.choice(["calls", "grid"])))
+    return cases
 
 
 # ------------------------------------------------------------------ case lists
@@ -770,7 +971,20 @@ def run(tier, res, force_search=False):
             if kind == "QMpr" and params["model"] == "censored" and prob.get("f16"):
                 sig = dict(F16_SIGNATURE)
                 f16_hits += 1
-            problems.append((f"{name}: x[{prob['i']}]={prob['x_i']!r} < x[{prob['j']}]={prob['x_j']!r} but out {prob['out_i']!r} > {prob['out_j']!r}", case, sig))
+            problems.append((describe(name, prob), case, sig))
+    for kind, params, mode in sequence_cases(rng, tier, mult):
+        seed = rng.randint(0, 2**31 - 2)
+        if kind == "ISIMIP":
+            prob, info = run_isimip_sequence_case(params["var"], params["overrides"], mode, seed)
+        else:
+            prob, info = run_sequence_case(kind, params, mode, seed)
+        name = f"sequence/{mode}/{kind}:" + ",".join(f"{k}={v}" for k, v in sorted(params.items()) if k not in ("data",))
+        hist["sequence/" + mode] = hist.get("sequence/" + mode, 0) + 1
+        res.count((name, info.get("coarse_first"), info.get("groups")), True)
+        if prob is None:
+            continue
+        case = {"what": name, "kind": "sequence", "debiaser": kind, "params": params, "mode": mode, "np_seed": seed, **prob}
+        problems.append((describe(name, prob), case, {"what": name}))
     for var, ov, stage, dry, mode in isimip_cases(rng, tier, mult):
         seed = rng.randint(0, 2**31 - 2)
         prob, info = run_isimip_case(var, ov, stage, seed, dry, mode)
@@ -784,7 +998,7 @@ def run(tier, res, force_search=False):
         if prob is None:
             continue
         case = {"what": name, "kind": "ISIMIP", "var": var, "overrides": ov, "stage": stage, "dry": dry, "mode": mode, "np_seed": seed, **prob}
-        problems.append((f"{name}: x[{prob['i']}]={prob['x_i']!r} < x[{prob['j']}]={prob['x_j']!r} but out {prob['out_i']!r} > {prob['out_j']!r}", case, {"what": name}))
+        problems.append((describe(name, prob), case, {"what": name}))
     res.extra["oracle_cases"] = hist
     res.extra["oracle_skipped"] = skipped
     res.extra["f16_windows_with_inverted_subthreshold_pair"] = f16_hits
@@ -810,12 +1024,17 @@ def replay(data):
     if not fi:
         print("replay: no failing input recorded (broken proof obligation / correspondence):", data.get("broken"))
         return 1
-    if fi["kind"] == "ISIMIP":
+    if fi["kind"] == "sequence":
+        if fi["debiaser"] == "ISIMIP":
+            prob, info = run_isimip_sequence_case(fi["params"]["var"], fi["params"]["overrides"], fi["mode"], fi["np_seed"])
+        else:
+            prob, info = run_sequence_case(fi["debiaser"], fi["params"], fi["mode"], fi["np_seed"])
+    elif fi["kind"] == "ISIMIP":
         prob, info = run_isimip_case(fi["var"], fi["overrides"], fi["stage"], fi["np_seed"], fi.get("dry"), fi.get("mode", "normal"))
     else:
         prob, info = run_case(fi["kind"], fi["params"], fi["np_seed"])
     if prob is None:
         print("replay: the relation holds now", info)
         return 0
-    print(f"replay: x[{prob['i']}]={prob['x_i']!r} < x[{prob['j']}]={prob['x_j']!r} but out {prob['out_i']!r} > {prob['out_j']!r}")
+    print("replay: " + describe(fi.get("what", ""), prob))
     return 1
